@@ -991,7 +991,34 @@ def relation_cause(S, T, depth=0):
                 continue
             if rel_call(M.render(s2, PREFIXES), M.render(t2, PREFIXES)) != m:
                 return relation_cause(s2, t2, depth + 1)
-    return 'item-types/%s<:%s' % (key_shape(a), key_shape(b))
+    where = ''
+    if a[0] == 'function' and b[0] == 'function':
+        d = sorted(differing_roles(S, T))
+        if d:
+            # WHERE the two function tests differ (parameter of a parameter, return type of a parameter, ...):
+            # different roles are compared by different code of the relation
+            where = '/differs-at:' + ','.join(d[:3])
+    return 'item-types/%s<:%s%s' % (key_shape(a), key_shape(b), where)
+
+
+def differing_roles(S, T, depth=0):
+    """role paths (param / return, nested with '.') at which two sequence types of function tests differ"""
+    out = set()
+    if S == T or depth > 3:
+        return out
+    a, b = (S[1] if S[0] == 'seq' else None), (T[1] if T[0] == 'seq' else None)
+    if a is None or b is None or a[0] != 'function' or b[0] != 'function' or a[1] is None or b[1] is None \
+            or len(a[1]) != len(b[1]):
+        out.add('type')
+        return out
+    if S[2] != T[2]:
+        out.add('indicator')
+    for x, y in zip(a[1], b[1]):
+        for r in differing_roles(x, y, depth + 1):
+            out.add('param' if r in ('type', 'indicator') else 'param.' + r)
+    for r in differing_roles(a[2], b[2], depth + 1):
+        out.add('return' if r in ('type', 'indicator') else 'return.' + r)
+    return out
 
 
 def function_test_key(pre, x, it, d1):
